@@ -114,6 +114,18 @@ func ZZC02_wiring() {
 		m2, gerr := rc.ManifestGet(ctx, base.SetTag("v2"))
 		zzAssert(gerr == nil && m2.GetDescriptor().Digest == dg, "repush_keeps_bytes_and_digest")
 	}
+	// push by a digest of the other algorithm: what was stored under that name is returned under it
+	d512 := digest.SHA512.FromBytes([]byte(body))
+	r512 := base.SetDigest(d512.String())
+	if rc.ManifestPut(ctx, r512, m) == nil {
+		zzReach("pushed_by_a_sha512_reference")
+		m3, gerr := rc.ManifestGet(ctx, r512)
+		zzAssert(gerr == nil, "manifest_pushed_by_digest_is_found_under_that_digest")
+		if gerr == nil {
+			raw3, _ := m3.RawBody()
+			zzAssert(string(raw3) == body && m3.GetDescriptor().Digest == d512, "manifest_pushed_by_digest_is_found_under_that_digest")
+		}
+	}
 }
 
 func itoa(n int) string {
